@@ -566,8 +566,8 @@ rw_harness! {
             }
             assert!(!C_GOT_OK, "C13: a contender was handed an Ok guard although the writer panicked while holding the lock (poison flag set too late)");
             assert!(l.is_poisoned());
-            kani::cover!(inside && C_GOT_ANY, "contender got in while the panicking writer's drop was still running");
             kani::cover!(inside && !C_GOT_ANY, "contender was refused inside the drop (lock still held)");
+            kani::cover!(!inside && C_GOT_ANY && !C_GOT_OK, "contender after the drop: Poisoned");
         }
     }
 }
